@@ -113,27 +113,32 @@ def lean_sources():
 
 
 def proof_stage(ctx):
-    """Build the property's theorem module, audit axioms, grep for forbidden tokens."""
+    """Build the property's theorem module(s), audit axioms, grep for forbidden tokens."""
     pr = ctx.proof
-    mod = ctx.cfg.get('lean_module', 'GraphrsModel.Props.' + ctx.prop)
-    path = os.path.join(LEAN, *mod.split('.')) + '.lean'
-    if not os.path.exists(path):
-        pr['problems'].append(f'theorem module {mod} is missing')
-        return
+    mods = [ctx.cfg.get('lean_module', 'GraphrsModel.Props.' + ctx.prop)] + ctx.cfg.get('extra_modules', [])
+    pr['modules'] = mods
+    paths = []
+    for mod in mods:
+        path = os.path.join(LEAN, *mod.split('.')) + '.lean'
+        if not os.path.exists(path):
+            pr['problems'].append(f'theorem module {mod} is missing')
+            return
+        paths.append(path)
     for f in lean_sources():
         for i, line in enumerate(strip_comments(open(f).read()).splitlines(), 1):
             if FORBIDDEN.search(line):
                 pr['problems'].append(f'forbidden token in {os.path.relpath(f, ROOT)}:{i}: {line.strip()[:80]}')
-    ok, out = build_lean(ctx, [mod, 'driver'])
-    names = theorem_names(path)
+    ok, out = build_lean(ctx, mods + ['driver'])
+    names = [n for path in paths for n in theorem_names(path)]
     pr['obligations'] = len(names)
     pr['theorems'] = names
     if not ok:
-        pr['problems'].append('lake build failed for ' + mod + ':\n' + out[-3000:])
+        pr['problems'].append('lake build failed for ' + ' '.join(mods) + ':\n' + out[-3000:])
         return
     audit = os.path.join(ctx.work, 'Audit.lean')
     with open(audit, 'w') as f:
-        f.write(f'import {mod}\n')
+        for mod in mods:
+            f.write(f'import {mod}\n')
         for n in names:
             f.write(f'#print axioms {n}\n')
     rc, out = sh(['lake', 'env', 'lean', audit], cwd=LEAN, timeout=1800)
@@ -147,22 +152,22 @@ def proof_stage(ctx):
     for m in re.finditer(r"'([^']+)' does not depend on any axioms", out):
         found[m.group(1)] = []
     for n in names:
-        full = n
-        if full not in found:
-            pr['problems'].append(f'no axiom report for {full}')
+        if n not in found:
+            pr['problems'].append(f'no axiom report for {n}')
             continue
-        ax = found[full]
+        ax = found[n]
         pr['axioms'][n] = ax
         bad = [a for a in ax if a not in ALLOWED_AXIOMS]
         if bad:
-            pr['problems'].append(f'{full} depends on non-standard axioms {bad}')
+            pr['problems'].append(f'{n} depends on non-standard axioms {bad}')
         else:
             pr['discharged'] += 1
     if ctx.tier == 'thorough' and not pr['problems']:
-        rc, out = sh(['lake', 'env', 'leanchecker', mod], cwd=LEAN, timeout=3600)
-        pr['leanchecker'] = 'ok' if rc == 0 else 'FAILED: ' + out[-500:]
-        if rc != 0:
-            pr['problems'].append('leanchecker rejected ' + mod)
+        for mod in mods:
+            rc, out = sh(['lake', 'env', 'leanchecker', mod], cwd=LEAN, timeout=3600)
+            pr['leanchecker'] = 'ok' if rc == 0 else 'FAILED: ' + out[-500:]
+            if rc != 0:
+                pr['problems'].append('leanchecker rejected ' + mod)
 
 
 # ------------------------------------------------------------------------------------------
@@ -315,7 +320,7 @@ def write_evidence(ctx, violations):
         'coverage': {
             'obligations': pr['obligations'],
             'discharged': pr['discharged'],
-            'checker_cmd': f"cd lean && lake build {cfg.get('lean_module', 'GraphrsModel.Props.' + ctx.prop)} && "
+            'checker_cmd': f"cd lean && lake build {' '.join(pr.get('modules', []))} && "
                            "lake env lean <generated #print axioms file>"
                            + (' && lake env leanchecker <module>' if ctx.tier == 'thorough' else ''),
             'trusted_base': ['Lean 4.33 kernel', 'axioms: ' + ', '.join(sorted({a for v in pr['axioms'].values() for a in v}) or ['none']),
